@@ -140,7 +140,9 @@ def r4_bridge_failures(ctx):
         sent = []
         ip = Interp(repo, max_while=2, max_iter=0, call_models={
             "cascade.executor.comms.Listener.recv_messages": lambda run, a, k, n, f, _m=msg: [_m] if not getattr(run, 'model_sent', False) and not setattr(run, 'model_sent', True) else []})
-        env = {"self.heartbeat_checker": {"H1": Obj("cascade.executor.comms.GraceWatcher", {}, name="gw")}, "self.sender.hosts": {"H1": ("s", "a"), "data.H1": ("s", "a")}}
+        from ..evalx import AnyKeyDict
+        env = {"self.heartbeat_checker": AnyKeyDict(True, Obj("cascade.executor.comms.GraceWatcher", {}, name="gw"), "heartbeat_checker"),
+               "self.sender.hosts": {"H1": ("s", "a"), "data.H1": ("s", "a")}}
         paths = ip.explore(fi, env=env)
         ctx.evals(len(paths))
         for p in paths:
